@@ -21,6 +21,14 @@ def main():
     env.setdefault("JOBLIB_ROOT", os.environ.get("PYVC_REPO") or "/repo")
     env["PYTHONPATH"] = env["JOBLIB_ROOT"] + os.pathsep + env.get("PYTHONPATH", "")  # scenarios that simply `import joblib`
     known, cases = {}, 0
+    # the scenarios create temporary directories of their own and few of them clean up: give them a private TMPDIR and remove it afterwards
+    import atexit
+    import shutil
+    import tempfile
+    scratch = tempfile.mkdtemp(prefix="pyvc_found_")
+    os.chmod(scratch, 0o755)  # (a scenario drops its privileges and must still reach what it created below)
+    env["TMPDIR"] = scratch
+    atexit.register(shutil.rmtree, scratch, True)
     for name, ent in sorted(man.items()):
         if prop not in ent["props"] or (ent.get("thorough_only") and tier != "thorough"):
             continue
@@ -31,7 +39,7 @@ def main():
             continue
         cases += 1
         try:
-            pr = subprocess.run([py, os.path.join(HERE, "found", name)], capture_output=True, text=True, timeout=ent.get("timeout", 300), env=env, cwd="/tmp")
+            pr = subprocess.run([py, os.path.join(HERE, "found", name)], capture_output=True, text=True, timeout=ent.get("timeout", 300), env=env, cwd=scratch)
             rc, out = pr.returncode, pr.stdout + pr.stderr
         except subprocess.TimeoutExpired:
             rc, out = 124, "timeout"
